@@ -88,6 +88,7 @@ func (sc *scenario) idle(d *WorkerDef) {
 func TestScenarios(t *testing.T) {
 	tr := common.NewTrace("trace.ndjson")
 	defer tr.Close()
+	stallWatchdog(tr)
 	n := 0
 	next := func() int { n++; return 1000 + n }
 
